@@ -65,6 +65,11 @@ fn plan_cmd(args: &[String]) {
         let obs = plan::observe(regs, map, &env);
         writeln!(out, "{}\t{}", case, obs).unwrap();
     };
+    let mut emit_rec = |map: MapMode, regs: &[prog::Reg], out: &mut dyn Write| {
+        let case = format!("plan map={} rec=1 :: {}", map.name(), prog::to_text(regs));
+        let obs = plan::observe_mode(regs, map, &env, false, true);
+        writeln!(out, "{}\t{}", case, obs).unwrap();
+    };
     if let Some(f) = arg(args, "--cases") {
         let rd: Box<dyn BufRead> = if f == "-" { Box::new(std::io::BufReader::new(std::io::stdin())) }
             else { Box::new(std::io::BufReader::new(std::fs::File::open(f).expect("cases file"))) };
@@ -75,6 +80,7 @@ fn plan_cmd(args: &[String]) {
             let (head, progt) = case.split_once(" :: ").unwrap_or((case, ""));
             let map = head.split(' ').find_map(|t| t.strip_prefix("map=")).map(MapMode::parse).unwrap_or(MapMode::A);
             let regs = prog::from_text(progt);
+            if head.split(' ').any(|t| t == "rec=1") { emit_rec(map, &regs, &mut out); continue; }
             match head.split(' ').find_map(|t| t.strip_prefix("meta=")) {
                 Some(m) => emit_meta(map, m, &regs, &mut out),
                 None => emit(map, &regs, &mut out),
@@ -114,6 +120,17 @@ fn plan_cmd(args: &[String]) {
                 let m2 = [MapMode::A, MapMode::B, MapMode::C][r.below(3) as usize];
                 emit_meta(m1, &format!("{}a", k), &base, &mut out);
                 emit_meta(m2, &format!("{}b", k), &variant, &mut out);
+            }
+        }
+        "recover" => {
+            // ill-formed registrations are caught and the builder is used on: the plan is the plan of the accepted ones
+            let mut rng = Rng::new(seed.wrapping_mul(1_000_037).wrapping_add(si).wrapping_add(0x2EC));
+            for _ in 0..count {
+                let mut r = rng.fork();
+                let regs = prog::gen_random(&mut r, true);
+                let uses_menu = prog::uses_menu(&regs);
+                let map = if uses_menu { MapMode::A } else { [MapMode::A, MapMode::B, MapMode::C][r.below(3) as usize] };
+                emit_rec(map, &regs, &mut out);
             }
         }
         _ => {
@@ -270,7 +287,7 @@ fn meta_cmd(args: &[String]) {
     }
 }
 
-/// parseq --gen random|conflicts|exh --count N --seed S --shard i/n   |   parseq --cases FILE
+/// parseq --gen random|conflicts|exh|wide --count N --seed S --shard i/n   |   parseq --cases FILE
 #[cfg(feature = "parallel")]
 fn parseq_cmd(args: &[String]) {
     let stdout = std::io::stdout();
@@ -305,6 +322,16 @@ fn parseq_cmd(args: &[String]) {
                 let c = parseq::Case { pool: [1usize, 2, 4][(pattern % 3) as usize], mode: if k % 2 == 0 { "overlap".into() } else { "free".into() }, inside: pattern & 8 != 0, tree };
                 emit(&c, &mut out);
             }
+        }
+        return;
+    }
+    if gen == "wide" {
+        // `count` = stride through the family (1 = all of it)
+        let stride = count.max(1);
+        let mut k = seed % stride;
+        while k < parseq::wide_count() {
+            if (k / stride) % sn == si { emit(&parseq::wide_nth(k), &mut out); }
+            k += stride;
         }
         return;
     }
@@ -376,7 +403,7 @@ fn pool_cmd(args: &[String]) {
     let mut k = 0u64;
     let widths: Vec<u32> = if gen == "small" { vec![2, 3, 5] } else { (2..=16).collect() };
     for w in widths {
-        for cfg in ["user", "default", "batch", "async", "foreign", "defbatch", "batchfirst"] {
+        for cfg in ["user", "default", "batch", "async", "foreign", "defbatch", "batchfirst", "asyncforeign"] {
             // pool exactly as wide as the stage, and a larger one; the default pool has one thread per CPU
             let sizes: Vec<usize> = if cfg == "default" { if (w as usize) <= cpus { vec![cpus] } else { vec![] } } else if cfg == "defbatch" { if (w as usize) < cpus { vec![cpus] } else { vec![] } } else { vec![w as usize, 16.max(w as usize)] };
             for p in sizes {
